@@ -162,6 +162,30 @@ func witness(s irgen.SchemaSpec) string {
 	return strings.Join(pk, " + ")
 }
 
+func renameTerm(t irgen.Term, from, to string) irgen.Term {
+	if (t.K == "ref" || t.K == "constref") && t.A == from {
+		t.A = to
+	}
+	if len(t.Sub) > 0 {
+		sub := make([]irgen.Term, len(t.Sub))
+		for i, x := range t.Sub {
+			sub[i] = renameTerm(x, from, to)
+		}
+		t.Sub = sub
+	}
+	return t
+}
+
+// renameRefs rewrites every reference to `from` (in place on a cloned spec).
+func renameRefs(c irgen.SchemaSpec, from, to string) irgen.SchemaSpec {
+	for pi := range c.Pkgs {
+		for oi := range c.Pkgs[pi].Objects {
+			c.Pkgs[pi].Objects[oi].T = renameTerm(c.Pkgs[pi].Objects[oi].T, from, to)
+		}
+	}
+	return c
+}
+
 func cloneSpec(s irgen.SchemaSpec) irgen.SchemaSpec {
 	c := irgen.SchemaSpec{Name: s.Name}
 	for _, p := range s.Pkgs {
@@ -183,10 +207,16 @@ func findObj(s irgen.SchemaSpec, key string) (irgen.Term, bool) {
 	return irgen.Term{}, false
 }
 
-// reductions are the one-step reductions of a schema set (DESIGN §5.1):
-// reduce one object's type (irgen.Term.Reductions: hoist a child, drop a
-// field/branch, reset an attribute), hoist an alias over the object it names,
-// delete an unreferenced object.
+// reductions are the one-step reductions of a schema set (DESIGN §5.1), in a
+// fixed order: delete an unreferenced object; hoist an alias over the object
+// it names; reduce one object's type (irgen.Term.Reductions: hoist a child,
+// drop a field/branch, reset an attribute; leafResets; requiredResets); and
+// finally reset order and names to the base values of their alphabets so that
+// inputs differing only in naming share one minimal form (an object precedes
+// the objects it refers to, a reference to a missing
+// object → p.Missing, the k-th object of a package → Root, O1, O2…, the k-th
+// field of a struct → f, g, h…, the only package → p, objects of a second
+// package → first package).
 func reductions(s irgen.SchemaSpec) []irgen.SchemaSpec {
 	var out []irgen.SchemaSpec
 	emit := func(c irgen.SchemaSpec) {
@@ -228,6 +258,10 @@ func reductions(s irgen.SchemaSpec) []irgen.SchemaSpec {
 				c.Pkgs[pi].Objects = append(append([]irgen.ObjSpec{}, p.Objects[:oi]...), p.Objects[oi+1:]...)
 				emit(c)
 			}
+		}
+	}
+	for pi, p := range s.Pkgs {
+		for oi, o := range p.Objects {
 			if o.T.K == "ref" {
 				if target, ok := findObj(s, o.T.A); ok && o.T.A != p.Pkg+"."+o.Name {
 					c := cloneSpec(s)
@@ -235,7 +269,8 @@ func reductions(s irgen.SchemaSpec) []irgen.SchemaSpec {
 					emit(c)
 				}
 			}
-			for _, r := range o.T.Reductions() {
+			rs := append(append(append(o.T.Reductions(), leafResets(o.T)...), requiredResets(o.T)...), fieldNameResets(o.T)...)
+			for _, r := range rs {
 				if r.K == "scalar" && r.A == "null" {
 					continue
 				}
@@ -243,6 +278,235 @@ func reductions(s irgen.SchemaSpec) []irgen.SchemaSpec {
 				c.Pkgs[pi].Objects[oi].T = r
 				emit(c)
 			}
+		}
+	}
+	// naming
+	{
+		var refs []string
+		for _, p := range s.Pkgs {
+			for _, o := range p.Objects {
+				refsOf(o.T, &refs)
+			}
+		}
+		done := map[string]bool{}
+		for _, k := range refs {
+			if _, ok := findObj(s, k); ok || k == P+".Missing" || done[k] {
+				continue
+			}
+			done[k] = true
+			emit(renameRefs(cloneSpec(s), k, P+".Missing"))
+		}
+	}
+	// order: an object comes before the objects it refers to (deterministic
+	// topological order, ties and cycles keep the current order; idempotent)
+	for pi, p := range s.Pkgs {
+		refs := make([][]string, len(p.Objects))
+		for i, o := range p.Objects {
+			refsOf(o.T, &refs[i])
+		}
+		picked := make([]bool, len(p.Objects))
+		var order []int
+		for len(order) < len(p.Objects) {
+			choice := -1
+			for i := range p.Objects {
+				if picked[i] {
+					continue
+				}
+				free := true
+				for j := range p.Objects {
+					if j != i && !picked[j] && contains(refs[j], p.Pkg+"."+p.Objects[i].Name) {
+						free = false
+						break
+					}
+				}
+				if free {
+					choice = i
+					break
+				}
+			}
+			if choice < 0 {
+				for i := range p.Objects {
+					if !picked[i] {
+						choice = i
+						break
+					}
+				}
+			}
+			picked[choice] = true
+			order = append(order, choice)
+		}
+		same := true
+		for i, j := range order {
+			if i != j {
+				same = false
+			}
+		}
+		if !same {
+			c := cloneSpec(s)
+			for i, j := range order {
+				c.Pkgs[pi].Objects[i] = p.Objects[j]
+			}
+			emit(c)
+		}
+	}
+	for pi, p := range s.Pkgs {
+		for oi, o := range p.Objects {
+			if oi >= len(canonNames) || o.Name == canonNames[oi] {
+				continue
+			}
+			// the object at position oi takes the name of its position; an object holding that name swaps
+			want := canonNames[oi]
+			c := cloneSpec(s)
+			c = renameRefs(c, p.Pkg+"."+want, p.Pkg+".\x00tmp")
+			c = renameRefs(c, p.Pkg+"."+o.Name, p.Pkg+"."+want)
+			c = renameRefs(c, p.Pkg+".\x00tmp", p.Pkg+"."+o.Name)
+			for oj := range c.Pkgs[pi].Objects {
+				if c.Pkgs[pi].Objects[oj].Name == want {
+					c.Pkgs[pi].Objects[oj].Name = o.Name
+				}
+			}
+			c.Pkgs[pi].Objects[oi].Name = want
+			emit(c)
+		}
+	}
+	if len(s.Pkgs) == 1 && s.Pkgs[0].Pkg != P {
+		c := cloneSpec(s)
+		old := c.Pkgs[0].Pkg
+		for _, o := range s.Pkgs[0].Objects {
+			c = renameRefs(c, old+"."+o.Name, P+"."+o.Name)
+		}
+		c.Pkgs[0].Pkg = P
+		emit(c)
+	}
+	// move an object of another package into the first package (references follow)
+	for pi, p := range s.Pkgs {
+		if pi == 0 {
+			continue
+		}
+		first := s.Pkgs[0].Pkg
+		for oi, o := range p.Objects {
+			name := o.Name
+			if _, taken := findObj(s, first+"."+name); taken {
+				name = ""
+				for _, cn := range canonNames {
+					if _, taken := findObj(s, first+"."+cn); !taken {
+						name = cn
+						break
+					}
+				}
+				if name == "" {
+					continue
+				}
+			}
+			c := renameRefs(cloneSpec(s), p.Pkg+"."+o.Name, first+"."+name)
+			moved := c.Pkgs[pi].Objects[oi]
+			moved.Name = name
+			c.Pkgs[pi].Objects = append(append([]irgen.ObjSpec{}, c.Pkgs[pi].Objects[:oi]...), c.Pkgs[pi].Objects[oi+1:]...)
+			c.Pkgs[0].Objects = append(c.Pkgs[0].Objects, moved)
+			emit(c)
+		}
+	}
+	return out
+}
+
+func contains(l []string, x string) bool {
+	for _, y := range l {
+		if y == x {
+			return true
+		}
+	}
+	return false
+}
+
+var canonFields = []string{"f", "g", "h", "i", "j", "k"}
+
+// fieldNameResets: the field at position k of a struct (at any depth) takes
+// the k-th canonical field name; a field holding that name swaps.
+func fieldNameResets(t irgen.Term) []irgen.Term {
+	var out []irgen.Term
+	if t.K == "struct" {
+		for i, f := range t.Fields {
+			if i >= len(canonFields) || f.Name == canonFields[i] {
+				continue
+			}
+			c := t
+			c.Fields = append([]irgen.Field{}, t.Fields...)
+			for j := range c.Fields {
+				if c.Fields[j].Name == canonFields[i] {
+					c.Fields[j].Name = f.Name
+				}
+			}
+			c.Fields[i].Name = canonFields[i]
+			out = append(out, c)
+		}
+	}
+	for i, sub := range t.Sub {
+		for _, r := range fieldNameResets(sub) {
+			c := t
+			c.Sub = append([]irgen.Term{}, t.Sub...)
+			c.Sub[i] = r
+			out = append(out, c)
+		}
+	}
+	return out
+}
+
+var canonNames = []string{"Root", "O1", "O2", "O3", "O4", "O5", "O6", "O7", "O8", "O9"}
+
+// requiredResets: reset one optional field (at any depth) to required, the base value of that attribute.
+func requiredResets(t irgen.Term) []irgen.Term {
+	var out []irgen.Term
+	if t.K == "struct" {
+		for i, f := range t.Fields {
+			if !f.Required {
+				c := t
+				c.Fields = append([]irgen.Field{}, t.Fields...)
+				c.Fields[i].Required = true
+				out = append(out, c)
+			}
+		}
+	}
+	for i, sub := range t.Sub {
+		for _, r := range requiredResets(sub) {
+			c := t
+			c.Sub = append([]irgen.Term{}, t.Sub...)
+			c.Sub[i] = r
+			out = append(out, c)
+		}
+	}
+	return out
+}
+
+// leafResets: reset any proper sub-term to the base value of the alphabet
+// (`string`), once bare and once keeping its nullable/default/hint
+// decoration. Together with irgen's own reductions this makes one defect have
+// few minimal forms instead of one per leaf type.
+func leafResets(t irgen.Term) []irgen.Term {
+	var out []irgen.Term
+	for i, sub := range t.Sub {
+		if t.K == "map" && i == 0 {
+			continue
+		}
+		if sub.K == "scalar" && sub.A == "null" {
+			continue
+		}
+		with := func(r irgen.Term) irgen.Term {
+			c := t
+			c.Sub = append([]irgen.Term{}, t.Sub...)
+			c.Sub[i] = r
+			return c
+		}
+		isString := sub.K == "scalar" && sub.A == "string" && !sub.Constr
+		if !isString {
+			out = append(out, with(irgen.S("string")))
+			if sub.Nullable || sub.Default != "" || sub.Hints > 0 {
+				d := irgen.S("string")
+				d.Nullable, d.Default, d.Hints = sub.Nullable, sub.Default, sub.Hints
+				out = append(out, with(d))
+			}
+		}
+		for _, r := range leafResets(sub) {
+			out = append(out, with(r))
 		}
 	}
 	return out
@@ -343,8 +607,7 @@ func enumerate(thorough bool) ([]testCase, map[string]int) {
 	cfg := irgen.Config{Depth: 2, Leaves: fieldLeaves(thorough)}
 	if thorough {
 		cfg.Depth = 3
-		cfg.InnerLeaves = []irgen.Term{irgen.S("string"), {K: "scalar", A: "int64", Constr: true}, irgen.Const("str"), irgen.Enum("str"),
-			irgen.Ref("p.S"), irgen.Ref("p.K"), irgen.Ref("p.AS2"), irgen.Ref("q.K"), irgen.ConstRef("p.E"), irgen.Ref("p.Missing")}
+		cfg.InnerLeaves = fieldLeaves(false) // depth 3 is built over the quick leaf set
 	}
 	terms := irgen.Types(cfg)
 	for _, t := range terms {
